@@ -4,6 +4,7 @@
 # runs the given checks against it and reports which of them fire. The worktree is removed afterwards.
 cd "$(dirname "$0")/.."
 what=$1; tier=$2; shift 2
+[[ $what != revert:* && $what != /* ]] && what="$PWD/$what"
 wt=$(mktemp -d /tmp/skaml_mut_XXXXXX)
 git -C /repo worktree add -q --detach "$wt" HEAD >/dev/null 2>&1 || { echo "worktree failed"; exit 3; }
 trap 'git -C /repo worktree remove --force "$wt" >/dev/null 2>&1; rm -rf "$wt"' EXIT
